@@ -225,8 +225,30 @@ pub fn c07_check_triple(l: &str, s: Option<&str>, r: Option<&str>, deep: bool) -
     }
     // method level: bool, fields, variants and extensions untouched
     let nlists = if deep { VARIANT_LISTS.len() } else { 1 };
-    for vi in 0..nlists {
-        let vars: Vec<Variant> = VARIANT_LISTS[(vi + 1) % VARIANT_LISTS.len()].iter().filter_map(|v| v.parse().ok()).collect();
+    // ... with the fixed lists, and with registered real-world variants: every one of them on a bare language (an
+    // identifier that has only a language and variants is where a variant could be taken for a hint about script or
+    // region), a rotating one elsewhere
+    let lexv = crate::lexicon::VARIANTS;
+    let nlex = if cfg!(miri) { 1 } else if deep || (s.is_none() && r.is_none()) { lexv.len() } else { 1 };
+    let rot = {
+        use std::cell::Cell;
+        thread_local! { static ROT: Cell<usize> = Cell::new(0); }
+        ROT.with(|c| {
+            let v = c.get();
+            c.set(v.wrapping_add(1));
+            v
+        })
+    };
+    for vi in 0..nlists + nlex {
+        let vars: Vec<Variant> = if vi < nlists {
+            VARIANT_LISTS[(vi + 1) % VARIANT_LISTS.len()].iter().filter_map(|v| v.parse().ok()).collect()
+        } else {
+            match lexv[(rot + vi - nlists) % lexv.len()].parse::<Variant>() {
+                Ok(v) => vec![v],
+                Err(_) => continue,
+            }
+        };
+        let deep = deep && vi < nlists;
         let before = LanguageIdentifier::from_parts(t.0, t.1, t.2, &vars);
         let mut li = before.clone();
         let b = li.maximize();
@@ -377,10 +399,29 @@ pub fn c08_check_triple(lk: Option<&Likely>, l: &str, s: Option<&str>, r: Option
             out.push(fail("reference-differs", format!("minimize({}) = {:?}, reference implementation gives {:?}", name, got.map(|t| show(&t)), exp.map(|t| show(&t)))));
         }
     }
-    // method level
+    // method level (fixed variant lists, and registered real-world variants as in C07)
     let nl = if deep { VARIANT_LISTS.len() } else { 1 };
-    for vi in 0..nl {
-        let vars: Vec<Variant> = VARIANT_LISTS[(vi + 2) % VARIANT_LISTS.len()].iter().filter_map(|v| v.parse().ok()).collect();
+    let lexv = crate::lexicon::VARIANTS;
+    let nlex = if cfg!(miri) { 1 } else if deep || (s.is_none() && r.is_none()) { lexv.len() } else { 1 };
+    let rot = {
+        use std::cell::Cell;
+        thread_local! { static ROT: Cell<usize> = Cell::new(0); }
+        ROT.with(|c| {
+            let v = c.get();
+            c.set(v.wrapping_add(1));
+            v
+        })
+    };
+    for vi in 0..nl + nlex {
+        let vars: Vec<Variant> = if vi < nl {
+            VARIANT_LISTS[(vi + 2) % VARIANT_LISTS.len()].iter().filter_map(|v| v.parse().ok()).collect()
+        } else {
+            match lexv[(rot + vi - nl) % lexv.len()].parse::<Variant>() {
+                Ok(v) => vec![v],
+                Err(_) => continue,
+            }
+        };
+        let deep = deep && vi < nl;
         let before = LanguageIdentifier::from_parts(x.0, x.1, x.2, &vars);
         let mut li = before.clone();
         let b = li.minimize();
